@@ -12,19 +12,23 @@
 (* Emitter (one action per branch of the table; every branch looks at the file system AS IT IS NOW):      *)
 (*   T_RenamedOld, T_RenamedNewDir (+ generate_sub_moved_events when recursive), T_RenamedNewFile,        *)
 (*   T_Modified, T_AddedDir (+ generate_sub_created_events when recursive), T_AddedFile, T_Removed,       *)
-(*   T_RemovedSelf;  `last` is the LOCAL variable last_renamed_src_path: reset by every Read.             *)
+(*   T_RemovedSelf;  `last` is self._last_renamed_src_path: set by RENAMED_OLD_NAME, consumed (reset to    *)
+(*   "") by RENAMED_NEW_NAME, kept across reads (the repair ad9135d of finding W1).                         *)
 (*                                                                                                        *)
-(* Defect switches (the main configs set both to FALSE; each *_neg_* config sets one to TRUE                *)
-(* and TLC must then find the violation that checks/c20.py also observes on the real emitter):            *)
-(*   SplitPairs     a read may end between RENAMED_OLD_NAME and RENAMED_NEW_NAME            (finding W1)  *)
+(* Defect switches (the main configs set both to FALSE; each *_neg_* config sets one to TRUE and TLC must  *)
+(* then find the violation):                                                                               *)
+(*   LocalRenameSource  the code before ad9135d: the rename source is a local variable of queue_events(),   *)
+(*                  reset by every read and not consumed by RENAMED_NEW_NAME               (finding W1,    *)
+(*                  fixed; WinXlat_neg_W1.cfg keeps the switch and the split reads non-vacuous)             *)
 (*   StaleStat      an operation may change what os.path.isdir(p) answers for a path p whose ADDED or     *)
 (*                  RENAMED_NEW_NAME record is still untranslated (e.g. a directory created or moved in    *)
 (*                  and immediately renamed: the record is translated when p is gone)       (finding W2)  *)
-(* B2B (not a defect switch, TRUE in every config): operations may be issued while records are pending,   *)
-(* respecting the C01 pacing; WithRoot: the watched root may be removed.                                  *)
+(* Environment (not defect switches, TRUE in every config): SplitPairs - a read may end between           *)
+(* RENAMED_OLD_NAME and RENAMED_NEW_NAME; B2B - operations may be issued while records are pending,       *)
+(* respecting the C01 pacing; WithRoot - the watched root may be removed.                                 *)
 EXTENDS XlatCommon, TLC
 
-CONSTANTS MaxOps, SplitPairs, StaleStat, B2B, WithRoot
+CONSTANTS MaxOps, SplitPairs, LocalRenameSource, StaleStat, B2B, WithRoot
 
 VARIABLES start, rec, fs, nops, pend, batch, last, out, hot, lop, lout, alive
 vars == <<start, rec, fs, nops, pend, batch, last, out, hot, lop, lout, alive>>
@@ -76,13 +80,13 @@ DoOp(o) ==
     /\ lout' = <<>>
     /\ UNCHANGED <<start, rec, batch, last, out, alive>>
 
-\* queue_events(): winapi_events = self._read_events(); last_renamed_src_path = ""
+\* queue_events(): winapi_events = self._read_events()   (before ad9135d also: last_renamed_src_path = "")
 Read(n) ==
     /\ batch = <<>> /\ n \in 1..Len(pend) /\ alive
     /\ (~SplitPairs /\ n < Len(pend)) => pend[n].a # "OLD"
     /\ (pend[1].a = "SELF" => n = 1) /\ (\A i \in 2..n : pend[i].a # "SELF")     \* the failing read is a read of its own
     /\ batch' = SubSeq(pend, 1, n) /\ pend' = SubSeq(pend, n + 1, Len(pend))
-    /\ last' = NONE
+    /\ last' = IF LocalRenameSource THEN NONE ELSE last
     /\ UNCHANGED <<start, rec, fs, nops, out, hot, lop, lout, alive>>
 
 Emit(evs) == out' = out \o evs /\ lout' = lout \o evs
@@ -98,9 +102,10 @@ SubCreated(p) == LET ch == SubSeqOf(Children(fs, p)) IN [i \in 1..Len(ch) |-> Ev
 T_RenamedOld == /\ Step /\ Hd.a = "OLD" /\ last' = Hd.p /\ Emit(<<>>) /\ UNCHANGED alive
 T_RenamedNewDir == /\ Step /\ Hd.a = "NEW" /\ IsDir(Hd.p)
                    /\ Emit(<<Ev("moved", "d", last, Hd.p, FALSE)>> \o (IF rec THEN SubMoved(last, Hd.p) ELSE <<>>))
-                   /\ UNCHANGED <<last, alive>>
+                   /\ last' = (IF LocalRenameSource THEN last ELSE NONE) /\ UNCHANGED alive
 T_RenamedNewFile == /\ Step /\ Hd.a = "NEW" /\ ~IsDir(Hd.p)
-                    /\ Emit(<<Ev("moved", "f", last, Hd.p, FALSE)>>) /\ UNCHANGED <<last, alive>>
+                    /\ Emit(<<Ev("moved", "f", last, Hd.p, FALSE)>>)
+                    /\ last' = (IF LocalRenameSource THEN last ELSE NONE) /\ UNCHANGED alive
 T_Modified == /\ Step /\ Hd.a = "MODIFIED"
               /\ Emit(<<Ev("modified", IF IsDir(Hd.p) THEN "d" ELSE "f", Hd.p, NONE, FALSE)>>) /\ UNCHANGED <<last, alive>>
 T_AddedDir == /\ Step /\ Hd.a = "ADDED" /\ IsDir(Hd.p)
